@@ -15,7 +15,7 @@ from . import core
 class SuiteCfg:
     def __init__(self, name, parts_thorough=16, timeout=3000, nontrivial=None, signature=None,
                  has_spec=False, describe="", kind="diff", observable=None, classify=None, env=None,
-                 stateless=False, tags="", suite_arg=None):
+                 stateless=False, tags="", suite_arg=None, should_shrink=None):
         self.name = name
         self.parts_thorough = parts_thorough
         self.timeout = timeout
@@ -42,6 +42,9 @@ class SuiteCfg:
         # suite_arg: suite name passed to the hv binary and to hopmodel (default: name); lets two
         # SuiteCfgs (different tags) share one generator/driver
         self.suite_arg = suite_arg or name
+        # should_shrink(failure_dict) -> False for failures whose re-runs are too slow to minimise
+        # (e.g. every re-run waits for a watchdog); default: always shrink
+        self.should_shrink = should_shrink or (lambda f: True)
 
 
 class PropCfg:
@@ -163,7 +166,7 @@ def analyse_part(prop, suite, tie, stats, failures, max_failures=12):
 
 
 def shrink_failure(prop, suite, f):
-    if suite.kind == "monitor" or "note" in f or suite.stateless:
+    if suite.kind == "monitor" or "note" in f or suite.stateless or not suite.should_shrink(f):
         return f
     def fails(ops):
         io, mo = run_case(prop, suite, ops)
